@@ -9,21 +9,27 @@
 (* Tokens are pairs of 16-bit limbs.  A trace is accepted iff TLC reaches  *)
 (* its end without violating an invariant; an event that cannot be bound   *)
 (* (unknown handle, unknown reserve) is a deadlock = malformed trace.      *)
+(* NTraces independent traces (trace_1.ndjson ..) are validated in one     *)
+(* run: the initial state picks the trace, TLC's workers run them side by  *)
+(* side.                                                                   *)
 (***************************************************************************)
 EXTENDS TokenGen, Json
 
-VARIABLES i,      \* next line of the trace
+CONSTANT NTraces
+
+VARIABLES tr,     \* which trace this behaviour validates
+          i,      \* next line of the trace
           gens    \* generator handle -> [kind, inst, zone, cj]  (what the driver asked the constructor for)
 
-tvars == <<reserve, ring, pool, parts, shrunk, last, i, gens>>
+tvars == <<reserve, ring, pool, parts, shrunk, last, tr, i, gens>>
 
-Trace == ndJsonDeserialize("trace.ndjson")
+Traces == [k \in 1..NTraces |-> ndJsonDeserialize("trace_" \o ToString(k) \o ".ndjson")]
 
 ToSet(a)     == {a[k] : k \in DOMAIN a}
 MemberOf(n)  == IF n < 0 THEN NoMember ELSE <<n, 0>>
 
 TInit == /\ reserve = EmptyFcn /\ ring = EmptyFcn /\ pool = {} /\ parts = EmptyFcn /\ shrunk = FALSE
-         /\ last = None /\ i = 1 /\ gens = EmptyFcn
+         /\ last = None /\ tr \in 1..NTraces /\ i = 1 /\ gens = EmptyFcn
 
 Reset(e) == /\ e.ev = "reset"
             /\ reserve' = EmptyFcn /\ ring' = EmptyFcn /\ pool' = {} /\ parts' = EmptyFcn /\ shrunk' = FALSE
@@ -72,15 +78,18 @@ LoseEv(e)  == e.ev = "lose"  /\ LoseObs(MemberOf(e.member), ToSet(e.toks)) /\ UN
 LeaveEv(e) == e.ev = "leave" /\ LeaveObs(MemberOf(e.member)) /\ UNCHANGED gens
 PartitionEv(e) == e.ev = "partition" /\ AddPartitionObs(e.id, e.toks, e.panic) /\ UNCHANGED gens
 
-TNext == \/ /\ i <= Len(Trace)
-            /\ i' = i + 1
-            /\ LET e == Trace[i] IN
+TNext == \/ /\ i <= Len(Traces[tr])
+            /\ i' = i + 1 /\ tr' = tr
+            /\ LET e == Traces[tr][i] IN
                \/ Reset(e) \/ Note(e) \/ NewGen(e) \/ CallEv(e) \/ ObserveEv(e) \/ FamilyEv(e)
                \/ CanJoinEv(e) \/ LoseEv(e) \/ LeaveEv(e) \/ PartitionEv(e)
-         \/ /\ i > Len(Trace)                  \* the whole trace was accepted
+         \/ /\ i > Len(Traces[tr])                \* the whole trace was accepted
             /\ UNCHANGED tvars
 
 TSpec == TInit /\ [][TNext]_tvars
+
+(* what TLC prints of a state of a rejected trace (the state itself holds thousands of tokens) *)
+TraceAlias == [tr |-> tr, i |-> i, ev |-> last.ev]
 
 -----------------------------------------------------------------------------
 (* the clauses, on the event just consumed *)
